@@ -2,7 +2,7 @@
 offset ArrayAssignment2LoopsTrans derives from them.
 
 One subroutine with arrays of rank 1..3 declared in every way PSyclone distinguishes (explicit bounds with literal
-default / literal non-unit / symbolic lower bound, assumed shape `(:)`, assumed shape with lower bound `(0:)` `(n:)`,
+default / literal non-unit / symbolic bounds `n:m`, assumed shape `(:)`, assumed shape with lower bound `(0:)` `(n:)`,
 allocatable) and with DIFFERENT lower bounds per dimension; statements `L = f(R [, L])` and `s = SUM/MAXVAL(A1 * A2)`
 where every access has ONE range, enumerated over (array, position of the range) x (array, position) x range form
 (`:`, `lo:`, `lo:hi`, partial, `::2`, `lo:hi:2`, reversed).  For every statement:
@@ -37,7 +37,7 @@ ALLOC = ["h1", "h2"]
 
 
 def hi_txt(lo):
-    return f"{lo}+{E - 1}" if lo == "n" else str(int(lo) + E - 1)
+    return "m" if lo == "n" else str(int(lo) + E - 1)      # m = n + 3 is a second dummy argument
 
 
 def decl_dim(kind, lo):
@@ -63,7 +63,7 @@ def init_loops(a, ind="    "):
 
 def program(n, blocks):
     """blocks: list of (statement text, name to print, array to re-initialise or None)"""
-    L = ["module srmod", "contains", f"  subroutine sub({', '.join(DUMMIES)}, n)", "    integer, intent(in) :: n"]
+    L = ["module srmod", "contains", f"  subroutine sub({', '.join(DUMMIES)}, n, m)", "    integer, intent(in) :: n, m"]
     for a in DUMMIES:
         L.append(f"    real, intent(inout) :: {a}({', '.join(decl_dim(k, lo) for k, lo in ARR[a])})")
     for a in ARR:
@@ -94,7 +94,7 @@ def program(n, blocks):
     L += ["  end subroutine sub", "end module srmod", "program p", "  use srmod", "  integer :: n"]
     for a in DUMMIES:
         L.append(f"  real :: {a}({', '.join(str(E) for _ in ARR[a])})")
-    L += [f"  n = {n}", f"  call sub({', '.join(DUMMIES)}, n)", "end program p"]
+    L += [f"  n = {n}", f"  call sub({', '.join(DUMMIES)}, n, n + {E - 1})", "end program p"]
     return "\n".join(L) + "\n", starts
 
 
@@ -214,7 +214,7 @@ def txt_sexp(txt, names):
     if "+" in txt:
         a, b = txt.split("+")
         return ["bin", "add", txt_sexp(a, names), txt_sexp(b, names)]
-    return ["var", names.id(txt)] if txt == "n" else ["lit", int(txt)]
+    return ["var", names.id(txt)] if txt in ("n", "m") else ["lit", int(txt)]
 
 
 def ex_plain(node, names):
